@@ -8,7 +8,9 @@
  * stdin: one sequence per line (formats below); stdout: one line per sequence,
  * one token per operation "<result>@<capacity after the operation>".
  *
- *   vec <stride> <alloc> <nops> <op>...   stride 8 or 24 (first word of an element is its value)
+ *   vec <stride> <alloc> <nops> <op>...   stride 8, 24 or 4096 (first word of an element is its value), 1 (the
+ *                                         element is one unsigned byte: values 0..255) or 3 (three bytes, little
+ *                                         endian, no padding: values 0..2^24-1)
  *       <alloc>: "-" = the default callbacks of vector_init (calloc/realloc/free of libc);
  *                "s" or "s:<size>,<size>..." = STRICT callbacks through vector_init_impl: realloc hands out a
  *                fresh block filled with 0xa5, copies exactly <oldsize> bytes (what arena_realloc's slow path
@@ -19,7 +21,10 @@
  *       results: E | I:<index>:<value> | N | U | Z:<n> | L:<v,v,...>
  *       first token of the answer: H:<sizeof(struct vector)>
  *   buf <init_size> <alloc> <nops> <op>...   (<alloc> as above, through buffer_alloc_impl)
- *       ops: puts:<hex> putc:<byte> printf:<hex> huge:<n> str reset pop:<n> cmp:<hex> len dump lines gline
+ *       ops: puts:<hex> putc:<byte> printf:<hex> printd:<int64> printi:<int> printp:<precision>:<hex> huge:<n>
+ *            str reset pop:<n> cmp:<hex> len dump lines gline
+ *            (printf = "%s"; printd = "%" PRId64 "/%s" with "x"; printi = "%d"; printp = "%.*s" with an int
+ *            precision and the bytes followed by a NUL - the bytes may hold a NUL themselves)
  *       results: Z:<n> | B:<hex> | N | U | LN:<hex>,<hex>,... | G:<hex>   ("-" = empty string)
  *       gline = ONE buffer_getline call on an iterator that lives as long as the sequence (zeroed at its start)
  *       first token: A:<capacity after buffer_alloc> or A:NULL
@@ -177,6 +182,53 @@ struct big {
 	int64_t	pad[2];
 };
 
+struct huge {
+	int64_t	val;
+	char	pad[4096 - sizeof(int64_t)];
+};
+
+struct one {
+	uint8_t	val;
+};
+
+struct three {
+	uint8_t	b[3];
+};
+
+static int64_t
+get_three(const struct three *p)
+{
+	return (int64_t)p->b[0] | ((int64_t)p->b[1] << 8) | ((int64_t)p->b[2] << 16);
+}
+
+static void
+set_three(struct three *p, int64_t x)
+{
+	p->b[0] = (uint8_t)(x & 0xff);
+	p->b[1] = (uint8_t)((x >> 8) & 0xff);
+	p->b[2] = (uint8_t)((x >> 16) & 0xff);
+}
+
+static int
+cmp_huge(const struct huge *a, const struct huge *b)
+{
+	return a->val < b->val ? -1 : a->val > b->val;
+}
+
+static int
+cmp_one(const struct one *a, const struct one *b)
+{
+	return a->val < b->val ? -1 : a->val > b->val;
+}
+
+static int
+cmp_three(const struct three *a, const struct three *b)
+{
+	int64_t x = get_three(a), y = get_three(b);
+
+	return x < y ? -1 : x > y;
+}
+
 static int
 cmp_i64(const int64_t *a, const int64_t *b)
 {
@@ -308,6 +360,10 @@ puthex(const unsigned char *p, size_t n)
 #define SET_I64(p, x) (*(p) = (x))
 #define GET_BIG(p) ((p)->val)
 #define SET_BIG(p, x) ((p)->val = (x))
+#define GET_ONE(p) ((int64_t)(p)->val)
+#define SET_ONE(p, x) ((p)->val = (uint8_t)(x))
+#define GET_THREE(p) get_three(p)
+#define SET_THREE(p, x) set_three((p), (x))
 
 static void
 vec_seq(size_t stride, char **ops, size_t nops)
@@ -318,6 +374,12 @@ vec_seq(size_t stride, char **ops, size_t nops)
 		VEC_SEQ(int64_t, GET_I64, SET_I64, cmp_i64);
 	else if (stride == 24)
 		VEC_SEQ(struct big, GET_BIG, SET_BIG, cmp_big);
+	else if (stride == 4096)
+		VEC_SEQ(struct huge, GET_BIG, SET_BIG, cmp_huge);
+	else if (stride == 1)
+		VEC_SEQ(struct one, GET_ONE, SET_ONE, cmp_one);
+	else if (stride == 3)
+		VEC_SEQ(struct three, GET_THREE, SET_THREE, cmp_three);
 	else
 		printf("BADSTRIDE");
 }
@@ -360,6 +422,16 @@ buf_seq(size_t init_size, char **ops, size_t nops)
 			free(arg);
 		} else if (is(op, "printd")) {
 			printf("Z:%d", buffer_printf(bf, "%" PRId64 "/%s", argi(op), "x"));
+		} else if (is(op, "printi")) {
+			printf("Z:%d", buffer_printf(bf, "%d", (int)argi(op)));
+		} else if (is(op, "printp")) {
+			/* printp:<precision>:<hex>: "%.*s" stops at the precision or at the first NUL */
+			const char *c2 = strchr(op, ':');
+			c2 = c2 != NULL ? strchr(c2 + 1, ':') : NULL;
+			arg = arghex(c2 != NULL ? c2 : ":", &len);
+			arg[len] = '\0';
+			printf("Z:%d", buffer_printf(bf, "%.*s", (int)argi(op), (const char *)arg));
+			free(arg);
 		} else if (is(op, "huge")) {
 			static const char one = 'x';
 			uint64_t n = argu(op);
